@@ -2054,6 +2054,10 @@ class CallsMixin:
             return x
         if t == 'VInt':
             return VStr(self.int_to_str(Value.i(x)))
+        if t == 'VNone':
+            return VStr('None')
+        if t == 'VBool':
+            return VStr(z3.If(Value.b(x), z3.StringVal('True'), z3.StringVal('False')))
         return VStr(self.fresh('str', S))
 
     def int_to_str(self, n):
